@@ -1,0 +1,79 @@
+/*
+ * Atree - Scalable Arrays and Ordered Maps
+ *
+ * Copyright Flow Foundation
+ *
+ * Licensed under the Apache License, Version 2.0 (the "License");
+ * you may not use this file except in compliance with the License.
+ * You may obtain a copy of the License at
+ *
+ *   http://www.apache.org/licenses/LICENSE-2.0
+ *
+ * Unless required by applicable law or agreed to in writing, software
+ * distributed under the License is distributed on an "AS IS" BASIS,
+ * WITHOUT WARRANTIES OR CONDITIONS OF ANY KIND, either express or implied.
+ * See the License for the specific language governing permissions and
+ * limitations under the License.
+ */
+
+//go:build verif
+
+package atree
+
+//@ # ---------------------------------------------------------------- abstract view of a SlabStorage (used by container code)
+//@ # sto    : the slab object visible under each id (nil = absent), as seen through Retrieve
+//@ # stored : slab objects handed to Store during the current call (ghost "recorded as dirty")
+//@ # touched: slab objects with a field write during the current call (maintained by the verifier at every heap write)
+
+//@ ghost sto : map[SlabID]ref
+//@ ghost stored : set[ref]
+//@ ghost touched : set[ref]
+//@ ghost extSid : fn(s Slab) SlabID
+
+//@ pred sid(s Slab) = ite(is(s, *ArrayDataSlab), as(s, *ArrayDataSlab).header.slabID,
+//@      ite(is(s, *ArrayMetaDataSlab), as(s, *ArrayMetaDataSlab).header.slabID,
+//@      ite(is(s, *MapDataSlab), as(s, *MapDataSlab).header.slabID,
+//@      ite(is(s, *MapMetaDataSlab), as(s, *MapMetaDataSlab).header.slabID,
+//@      ite(is(s, *StorableSlab), as(s, *StorableSlab).slabID, extSid(s))))))
+
+//@ iface Slab.SlabID() (id)
+//@   ensures id == sid(recv)
+//@   pure
+
+//@ iface SlabStorage.Store(id, slab) (err)
+//@   ensures err == nil ==> sto == upd(old(sto), id, slab) && stored == add(old(stored), slab)
+//@   ensures err != nil ==> sto == old(sto) && stored == old(stored)
+//@   modifies ghost.sto, ghost.stored
+
+//@ iface SlabStorage.Remove(id) (err)
+//@   ensures err == nil ==> sto == upd(old(sto), id, nil)
+//@   ensures err != nil ==> sto == old(sto)
+//@   modifies ghost.sto
+
+//@ iface SlabStorage.Retrieve(id) (slab, found, err)
+//@   ensures err == nil ==> slab == sto[id] && found == (slab != nil)
+//@   ensures err != nil ==> slab == nil
+//@   pure
+
+//@ iface SlabStorage.RetrieveIfLoaded(id) (slab)
+//@   ensures slab == nil || slab == sto[id]
+//@   pure
+
+//@ iface SlabStorage.GenerateSlabID(address) (id, err)
+//@   ensures err == nil ==> id.address == address && id != SlabIDUndefined && sto[id] == nil
+//@   pure
+
+//@ func storeSlab(storage, slab) (err)  serves C03 C18
+//@   requires storage != nil && slab != nil
+//@   ensures err == nil ==> sto == upd(old(sto), old(sid(slab)), slab) && stored == add(old(stored), slab)
+//@   ensures err != nil ==> sto == old(sto) && stored == old(stored) && categorised(err)
+//@   modifies ghost.sto, ghost.stored
+
+//@ # ---------------------------------------------------------------- caller-supplied values
+
+//@ ghost valueRoot : fn(v Value) ref
+
+//@ iface Value.Storable(storage, address, maxInlineSize) (st, err)
+//@   ensures err == nil ==> st != nil && bs(st) <= maxInlineSize
+//@   ensures err != nil ==> st == nil
+//@   modifies ghost.sto, ghost.stored, ghost.touched, alloc, as(valueRoot(recv), *ArrayDataSlab).header, as(valueRoot(recv), *ArrayDataSlab).inlined, as(valueRoot(recv), *MapDataSlab).header, as(valueRoot(recv), *MapDataSlab).inlined
